@@ -982,7 +982,9 @@ class TranscriptToGeneJoiner:
             self.gene_regions[gene_id] = self.gene_info.get_gene_regions()[gene_id]
         for transcript_id in self.gene_info.gene_id_map.keys():
             gene_id = self.gene_info.gene_id_map[transcript_id]
-            self.gene_introns[gene_id].update(self.gene_info.all_isoforms_introns[transcript_id])
+            # a reference transcript without exon records is in gene_id_map, but GeneInfo.set_introns_and_exons
+            # skips it (with a warning), so it has no entry in all_isoforms_introns
+            self.gene_introns[gene_id].update(self.gene_info.all_isoforms_introns.get(transcript_id, []))
             self.gene_to_transcripts[gene_id].add(transcript_id)
 
         for t in self.transcipt_model_storage:
